@@ -26,3 +26,6 @@ import TLX.Props.Translated.Main2
 import TLX.Props.Translated.Keylog
 import TLX.Props.Translated.QuicSess3
 import TLX.Props.Translated.Decrypt2
+import TLX.Props.Translated.Opts
+import TLX.Props.Translated.TlsKeys
+import TLX.Props.Translated.Dsb
